@@ -278,6 +278,40 @@ async def helper_probes():
     return None
 
 
+async def default_restart_limit():
+    """An actor whose restart limit was never configured restarts after every failure (the documented default is
+    'unlimited'): run logic failing twice, then returning, is invoked three times."""
+    from frequenz.sdk.actor import Actor
+
+    class Plain(Actor):
+        RESTART_DELAY = timedelta(seconds=0)
+
+        def __init__(self):
+            super().__init__(name="plain")
+            self.runs = 0
+
+        async def _run(self):
+            self.runs += 1
+            await asyncio.sleep(0)
+            if self.runs <= 2:
+                raise RuntimeError("scripted failure")
+
+    if "_restart_limit" in Plain.__dict__:
+        return "harness: the probe class must not configure a limit"
+    a = Plain()
+    a.__dict__.pop("_restart_limit", None)
+    # (the project's test fixtures overwrite Actor._restart_limit for the whole session; this process does not)
+    a.start()
+    try:
+        await asyncio.wait_for(a.wait(), timeout=10.0)
+    except BaseException as e:  # pylint: disable=broad-except
+        return (f"an actor with no configured restart limit gave up after {a.runs} invocation(s) with {type(e).__name__} "
+                f"(run logic: fail, fail, return - three invocations demanded)")
+    if a.runs != 3:
+        return f"an actor with no configured restart limit invoked its run logic {a.runs} times for: fail, fail, return (3 demanded)"
+    return None
+
+
 def run(req):
     logging.disable(logging.CRITICAL)
     t0 = time.time()
@@ -322,6 +356,14 @@ def run(req):
     if not failure:
         evaluations += 1
         try:
+            f = asyncio.run(default_restart_limit())
+        except Exception as e:  # pylint: disable=broad-except
+            f = f"scenario raised {type(e).__name__}: {e}"
+        if f:
+            failure = (f, {"scenario": "restart limit never configured; run logic: fail, fail, return"})
+    if not failure:
+        evaluations += 1
+        try:
             f = asyncio.run(helper_probes())
         except Exception as e:  # pylint: disable=broad-except
             f = f"scenario raised {type(e).__name__}: {e}"
@@ -333,7 +375,7 @@ def run(req):
            "rule": "restart limit in {None, 0, 1, 2} x outcome plans of the run logic (up to 3 failures, then return) x an "
                    "optional second start() with its own plan x restart delay 0 / 50 ms (a subclass attribute); plus start / "
                    "cancel / start again (1-2x) while the cancelled run logic cleans up for 1/3/8 loop iterations; a stop() cancelled by its caller "
-                   "while it waits, followed by 0-2 start() calls and a second stop(); the helpers run_forever (4 intervals), "
+                   "while it waits, followed by 0-2 start() calls and a second stop(); an actor whose restart limit was never configured; the helpers run_forever (4 intervals), "
                    "cancel_and_await and stop() with one failing and two cancelled tasks; all distinct"}
     if failure:
         out["failure"] = {"clause": "restart policy on the real Actor", "detail": failure[0]}
